@@ -191,7 +191,12 @@ def execute(item):
 
 
 def reproduce(item):
-    return {report.key_str(v["key"]) for v in execute(item).violations}
+    import signal
+
+    signal.setitimer(signal.ITIMER_REAL, 6.0 if "mut" in item else (120.0 if item.get("mode") == "isolated" else 30.0))  # the horizons of the exploration
+    r = execute(item)
+    signal.setitimer(signal.ITIMER_REAL, 0)
+    return {report.key_str(v["key"]) for v in r.violations}
 
 
 def main(tier):
@@ -220,5 +225,6 @@ def main(tier):
         extra_cov={"isolated_rule_applications": m1.transitions, "pipeline_runs": m2.evaluations, "mutants": m3.evaluations, "mutants_rejected": m3.extra.get("rejected_mutants", 0),
                    "mutants_accepted": m3.extra.get("accepted_mutants", 0), "bound": common.bound_text(tier, KQ, KT)},
         reproduce=reproduce,
+        repro_horizon=150.0,
         technique="bounded-exhaustive enumeration of rule x input x option and of single-token mutations against the real code, with a watchdog",
     )
